@@ -81,6 +81,10 @@ class Sym:
         return cnorm(n)
 
 
+# calls whose result changes between two evaluations with the same arguments
+STATEFUL = ("PyDict_Next(",)
+
+
 class SymPath:
     """trace: ordered list of
          ('atom', text, truth, node_id)
@@ -112,6 +116,8 @@ class SymPath:
             c = _fold(text)
             if c is not None and c != truth:
                 return False
+            if any(f in text for f in STATEFUL):
+                continue        # iterator-like call: may legitimately flip
             if seen.setdefault(text, truth) != truth:
                 return False
         return True
